@@ -1,4 +1,4 @@
-import MpsVerif.Proofs.ServletContract
+import MpsVerif.Proofs.ServletLift
 /-!
 # C02 — Server answers every request with its own result (no cross-talk): the servlet-tree layer
 
@@ -17,14 +17,18 @@ functions and failure plans (`WSpec` is universally quantified), any member outc
 The layer-2 proviso — the uids handed to the tree are pairwise distinct — is what the request-id
 counter guarantees (Ledger model); `C02_uid_distinct_needed` shows it cannot be dropped.
 
-Whole trees: a member of an ensemble / switch is a *contract box* (answers any message it holds, at
-any time, with any outcome its own `outs` allows).  `C02_node_*` say that a node over boxes
-satisfies the contract for `outs` of the tree node, `C02_seq` composes contracts along a sequence
-and passes the distinct-uid proviso on, and `Ens`/`Sw` hand every uid to a member at most once
-(`Ens.Inv.iknd`), so the proviso holds for the members as well.  What the structural induction
-additionally needs — that the behaviour of a concrete subtree is one of the behaviours of its box —
-is exactly the contract (as an invariant of every reachable state) of that subtree; it is not
-restated as a trace-inclusion theorem here (see notes/C02.md).
+Whole trees (`Model/ServletTree.lean`, `Proofs/ServletLift.lean`): in the node models a member of
+an ensemble / switch is a *contract box* (answers any message it holds, at any time, with any outcome
+its own `outs` allows).  `C02_tree` removes the abstraction: a behaviour of a concrete tree (`Tr t σ`)
+is a run of the root node with ARBITRARY members (they may answer anything, twice, or what they never
+received) whose member-boundary traces are, recursively, behaviours of the member subtrees; sequences
+are wired through a joint trace.  By structural induction over the tree every such behaviour with
+distinct input uids satisfies the trace contract `Sat (outs t)`: the members' contracts (induction
+hypothesis) make every member step a legal box step, the node contract (`C02_node_*`) does the rest,
+and each node hands every uid to a member at most once, so the proviso is passed down.
+Not lifted to whole trees: completeness ("exactly one at rest") — it is proved per node
+(`C02_node_*`, `C02_seq_complete`); for a whole tree it additionally needs a fairness / quiescence
+notion across nodes.
 -/
 namespace Servlet
 
@@ -101,6 +105,40 @@ theorem C02_exactly_one {o : Val → List Val} {recv : List Msg} {sentG : List G
     (h : Contract o recv sentG) (hn : (recv.map (·.1)).Nodup) :
     (sentG.map (·.1)).Nodup ∧ (Complete recv sentG → ∀ m ∈ recv, ∃ t ∈ sentG, gkey t = m) :=
   ⟨h.sent_nodup hn, fun hc => hc.answered⟩
+
+/-- **whole tree, no cross-talk**: for every servlet tree `t` (any depth, any mix of workers,
+    sequences, ensembles with or without fail-fast, switches; any worker functions, failure plans,
+    batch sizes, worker counts) and every behaviour `σ` of the concrete tree — every interleaving of
+    every thread of every node — whose input uids are pairwise distinct: every message `(u, y)` put on
+    the tree's output queue answers an earlier input `(u, x)` with an allowed outcome of THAT input,
+    `y ∈ outs t x`, and no uid is answered twice -/
+theorem C02_tree (t : Tree) (hw : WF t) (σ : List Ev) (htr : Tr t σ) (hd : DistinctIn σ) :
+    Sat (outs t) σ :=
+  tree_sat t hw σ htr hd
+
+/-- the same, read per request: the answer for uid `u` is computed from the input that entered
+    under `u` (it is the only input with that uid), and it is the only answer for `u` -/
+theorem C02_tree_own_result (t : Tree) (hw : WF t) (σ : List Ev) (htr : Tr t σ) (hd : DistinctIn σ)
+    (u : Nat) (x y : Val) (hx : Ev.inp (u, x) ∈ σ) (hy : Ev.out (u, y) ∈ σ) :
+    y ∈ outs t x ∧ ((σ.filterMap Ev.outOf).map (·.1)).Nodup := by
+  have hs := tree_sat t hw σ htr hd
+  obtain ⟨x', h1, h2⟩ := hs.out_mem u y hy
+  have : x' = x := fst_unique hd (mem_filterMap_inpOf.mpr h1) (mem_filterMap_inpOf.mpr hx)
+  exact ⟨this ▸ h2, hs.out_unique⟩
+
+/-! non-vacuity of `C02_tree`: a concrete behaviour of an ensemble of two simple servlets (member 1
+    answers before member 0) -/
+def wEx (k : Nat) : WSpec :=
+  { pre := id, f := fun x => .cons x (.nat k), bs := 0, bfail := fun _ => .none, berrs := [], nw := 1 }
+
+example : Tr (.ens [.worker (wEx 1), .worker (wEx 2)] false)
+    [.inp (5, .nat 7), .out (5, ofList [.cons (.nat 7) (.nat 1), .cons (.nat 7) (.nat 2)])] := by
+  simp only [Tr, TrAll]
+  exact ⟨[.node (.arrive (5, .nat 7)), .node .enq, .node (.memberOut 1 (.cons (.nat 7) (.nat 2))),
+          .node (.memberOut 0 (.cons (.nat 7) (.nat 1))), .node (.deq 0), .node (.deq 0), .node (.emit 0)],
+         _, rfl, rfl,
+         ⟨[.arrive (5, .nat 7), .take, .start [true], .finish 0, .emit 0], _, rfl, rfl⟩,
+         ⟨[.arrive (5, .nat 7), .take, .start [true], .finish 0, .emit 0], _, rfl, rfl⟩, trivial⟩
 
 /-! ### F2's mechanism: with a REUSED uid a fail-fast ensemble crosses results -/
 
